@@ -1760,6 +1760,16 @@ impl Fs {
                 {
                     return true;
                 }
+                // An entry renamed into this directory is a child too
+                // (same rule as `dir_entries`).
+                PendingOp::Rename { to, .. }
+                    if to.parent() == Some(path)
+                        && (self.file_exists(to)
+                            || self.dir_exists(to)
+                            || self.symlink_exists(to)) =>
+                {
+                    return true;
+                }
                 _ => {}
             }
         }
